@@ -10,6 +10,29 @@ BASELINE = "cd /repo && /venv/bin/python -m pytest -ra -q -p no:cacheprovider --
 
 # id -> (category, technique, text, note, design_ref, engine)
 CHECKS = {
+    "C03": (
+        "model_checking",
+        "bounded-exhaustive enumeration of test contracts of a guarded-failure grammar x solver x storage layout x panic-code configuration, each run end to end by the real run_contract with real solver subprocesses; verdict compared with a brute force of the same bytecode on a reference EVM over a finite argument domain",
+        "Every test of the grammar `if (g1) [if (g2)] fail_k` / `if (g1) fail_a; if (g2) fail_b` (16 relations over two uint256 arguments and a storage variable set by setUp: ==, !=, <, signed <, >, "
+        "x+y=c with overflow witness, x*y=c, x/y=c, x%y=c, sdiv, x**2=c, keccak equality, storage equality, masks; bytes and uint256[] length/element guards; fail_k in Panic(1), Panic(0x11), vm.assertTrue(false), "
+        "DSTest fail(), revert, INVALID) is assembled into a Foundry-style test contract and run through halmos.__main__.run_contract with yices and z3, both storage layouts and "
+        "--panic-error-codes in {0x01, 0x11, *}. The same deployed bytecode is executed on the reference EVM with Foundry cheatcode semantics from the reference post-setUp state for every argument tuple of a 12-value "
+        "boundary/colliding domain per static argument and every length halmos prints for dynamic ones; a PASS without warning while a failing tuple exists is a violation.",
+        "Trusted: mc/refevm.py, mc/refcheats.py, the assembler/artefact builder mc/e2e.py, mc/testgen.py. Only the sound direction is asserted. Solver calls have a 1 s / 5 s limit; timeouts give non-PASS verdicts (counted).",
+        "DESIGN.md §4 C03",
+        "A",
+    ),
+    "C04": (
+        "model_checking",
+        "the same bounded-exhaustive test enumeration; every reported counterexample is re-read independently from the solver's reply files, re-encoded to calldata and executed on a reference EVM",
+        "Every failing test of the hash-free part of the C03 grammar (incl. the guards that need refinement: mul, div, mod, sdiv, exp) is run end to end with three solver syntaxes (yices decimal (_ bvN W), yices #b, z3 #x) "
+        "and --dump-smt-directory. Every model halmos reports must equal an independent s-expression read of one of the solver replies on disk, the printed Counterexample lines must show those values, every sat reply on "
+        "disk is re-read with halmos's parser and compared, a reply that interprets an f_evm_ abstraction must not be labelled valid, and every model labelled valid is re-encoded (ABI encoder written here) and executed on the "
+        "reference EVM from the reference post-setUp state: it must end in the reported assertion failure.",
+        "Trusted: mc/refevm.py, mc/refcheats.py, the s-expression reader and ABI encoder in props/c04_cex.py / mc/testgen.py. Tests whose solver call times out give no model and make no claim.",
+        "DESIGN.md §4 C04",
+        "A",
+    ),
     "C08": (
         "model_checking",
         "bounded-exhaustive enumeration of store/load programs over a grammar of location expressions, each run by the real SEVM.run in both storage layouts and compared with a flat-dict reference EVM for every key valuation of a colliding domain; complete sweep of the precomputed hash tables",
